@@ -160,3 +160,72 @@ Proof.
     + intros H. discriminate H.
   - intros M. apply LK_trivial; [reflexivity|]. intros _. cbn. discriminate.
 Qed.
+
+(* ---------- whole runs ---------- *)
+Theorem core_clean5 : Clean S5 (mon_run (run_scenario sc)).
+Proof.
+  unfold run_scenario.
+  match goal with |- Clean S5 (mon_run (rev (trace (res_state ?r)))) => change (Clean S5 (mst (res_state r))) end.
+  destruct (core0_Acc sc) as (A0 & B0 & _). destruct core0_XI as (X0 & E0 & K0 & C0).
+  destruct (core0_Inv sc WF) as (I0 & TM0 & N0).
+  assert (L0 : LoopInv (core0 sc)) by (apply LoopInv_Inv; split; assumption).
+  pose proof (run_acts_PJA false (sc_setup sc) (core0 sc) (core0_J sc) A0 (wf_setup sc WF)) as P0.
+  pose proof (run_acts_XI false (sc_setup sc) (core0 sc) (core0_J sc) A0 X0 (wf_setup sc WF)) as PX0.
+  pose proof (run_acts_ok do_action_ok (sc_setup sc) (core0 sc) (proj1 I0) (wf_setup sc WF)) as PL0.
+  pose proof (run_acts_K do_action_ok (sc_setup sc) (core0 sc) (proj1 I0) (wf_setup sc WF)) as PK0.
+  pose proof (run_acts_ext (sc_setup sc) (core0 sc)) as T0. unfold RExt in T0.
+  destruct (run_acts (core0 sc) (sc_setup sc)) as [s1|s1]; unfold PXI, PK in *; cbn [bind PJA ARes okr res_state] in *;
+    [|apply (Clean5_ca _ _ T0 C0)].
+  destruct P0 as (J1 & A1 & F1 & B1), PX0 as [X1 EB1].
+  pose proof (Clean5_ca _ _ T0 C0) as C1.
+  pose proof (LoopInv_StepT _ _ L0 PL0) as L1.
+  pose proof (LKM_TFs _ _ K0 (proj2 PK0)) as K1'.
+  (* iv_main is entered *)
+  set (s2 := set_quit (emit s1 TMain) false).
+  pose proof (J_main_enter s1 J1) as J2. fold s2 in J2.
+  assert (C2 : Clean S5 (mst s2)).
+  { change (mst s2) with (mst (emit s1 TMain)). apply Clean_emit. apply Clean_step; [apply q5_quiet; exact Logic.I|exact C1]. }
+  assert (A2 : Acc s2).
+  { apply (Acc_plain (fun _ => True) s1 s2 A1); try reflexivity.
+    exists [TMain]. split; [reflexivity|constructor; [exact Logic.I|constructor]]. }
+  assert (M2 : MI s2).
+  { constructor; [constructor; [constructor|..]|..].
+    - exact J2.
+    - exact A2.
+    - change (cur s1 = None). apply (proj2 F1). apply core0_cur.
+    - change (HeapModel.batch (heap s1) = []). apply B1. exact B0.
+    - apply (XI_plain (emit s1 TMain) s2); try reflexivity. apply XI_emit; [exact X1|exact Logic.I].
+    - change (ev_batch s1 = []). apply EB1. exact E0.
+    - apply (proj1 (main_enter s1 L1)).
+    - apply (LKM_TFs s1 s2 K1'). apply TFs_plain; reflexivity. }
+  pose proof (main_loop_CE (Z.to_nat (sc_limit sc) + 2) s2 true M2 C2) as C3.
+  destruct (main_loop sc (Z.to_nat (sc_limit sc) + 2) s2 true) as [s3|s3]; cbn [bind res_state] in *; [|exact C3].
+  (* iv_main returns; tear-down: no wait any more *)
+  set (s4 := emit s3 (TEnd (if quit s3 then 1 else 0) (numobjs s3))).
+  assert (C4 : Clean S5 (mst s4)).
+  { unfold s4. apply Clean_emit. apply Clean_step; [apply q5_quiet; exact Logic.I|exact C3]. }
+  pose proof (teardown_ext (zseq 0 16) s4) as T5. unfold RExt in T5.
+  pose proof (Clean5_ca _ _ T5 C4) as C5.
+  destruct (teardown s4 (zseq 0 16)) as [s5|s5]; cbn [bind res_state] in *; [|exact C5].
+  apply Clean_emit. apply Clean_step; [apply q5_quiet; exact Logic.I|].
+  apply (Clean5_ca (emit s5 (TTear (numobjs s5)))); [apply deinit_ext|].
+  apply Clean_emit. apply Clean_step; [apply q5_quiet; exact Logic.I|exact C5].
+Qed.
+
+End K.
+
+(* ---------- exported statements ---------- *)
+From Ivv Require Core.CoreInv.
+
+Theorem core_code_705 : forall sc, wf_scenario sc -> ~ In 705 (mon_fails (run_scenario sc)).
+Proof. intros sc WF H. apply (core_clean5 sc WF CoreInv.do_action_ok 705 H). cbn. tauto. Qed.
+
+Theorem core_code_708 : forall sc, wf_scenario sc -> ~ In 708 (mon_fails (run_scenario sc)).
+Proof. intros sc WF H. apply (core_clean5 sc WF CoreInv.do_action_ok 708 H). cbn. tauto. Qed.
+
+Theorem core_code_710 : forall sc, wf_scenario sc -> ~ In 710 (mon_fails (run_scenario sc)).
+Proof. intros sc WF H. apply (core_clean5 sc WF CoreInv.do_action_ok 710 H). cbn. tauto. Qed.
+
+Print Assumptions core_code_705.
+Print Assumptions core_code_708.
+Print Assumptions core_code_710.
